@@ -16,6 +16,8 @@ impl LocalKey {
             .split_last_chunk::<16>()
             .ok_or(PasetoError::CryptoError)?;
         let ak = kdf(&self.0, 0x81, nonce);
+        #[cfg(paseto_verif)]
+        let n2 = &crate::verif::iv_override(*n2);
 
         let key = UnboundCipherKey::new(&AES_256, ek).map_err(|_| PasetoError::CryptoError)?;
         let iv = FixedLength::from(n2);
